@@ -5,6 +5,7 @@ CRATE = "e_bitset"
 DRIVER = "drv_bitset"
 DRIVER_MODULE = "Driver.Bitset"
 PROPS = "RlibModel.Props.C12"
+PROPS_SRC = "RlibModel.Props.C12Src"     # second tie: `src_*` theorems about the definitions regenerated from the source text
 PROFILES = ["release"]
 SHRINK_SEP = ";"
 RULE = ("a case is one history `N K ; op ; ...` over K live Bitset<N> registers, N in {1,2,3,10}; at its end every register is "
@@ -44,3 +45,65 @@ _CHANGING = ("set", "remove", "flip", "from", "load", "not", "and", "or", "xor",
 def nontrivial(case, rec):
     ops = [p.split() for p in case.split(";")[1:]]
     return any(o and o[0] in _CHANGING for o in ops)
+
+
+# ---- second tie: bitset.rs and bits_iter.rs regenerated from the source text on every run (tools/rs2lean_typed.py) ----------------
+TRANSLATED = ["new", "from_u64", "set", "remove", "flip", "test", "clear", "count",
+              "BitAnd::bitand", "BitOr::bitor", "BitXor::bitxor", "BitAndAssign::bitand_assign", "BitOrAssign::bitor_assign",
+              "BitXorAssign::bitxor_assign", "Not::not"]
+TRANSLATED_ITER = ["new", "next"]
+NOT_PROVED = ["bitand / bitor / bitxor, bitand_assign / bitor_assign / bitxor_assign, not (translated on every run into seven `for` loops on fuel; the src_*_eq_model "
+              "theorems for them are not written yet - differential tie only)",
+              "BitsIter::next (translated; a tactic proof of next_loop0 = skipLoop closes all goals but its term is rejected by the kernel's recursion limit, "
+              "see the comment in Lemmas/BitsetSrc.lean - differential tie only)"]
+NOT_TRANSLATED = ["Bitset::iter_bits (builds a BitsIter, a struct of the other file; BitsIter::new and next are translated from bits_iter.rs)",
+                  "Default::default (calls new)", "Display::fmt / Debug::fmt (closures, String, write!)",
+                  "#[derive(Clone, Eq, PartialEq)] (taken at face value: word-wise equality)"]
+
+ASSUMPTIONS.append(
+    "second tie: new/fromU64/set/remove/flip/test/clear/count of the hand-written model (and BitsIter::new) are proved equal (theorems src_*_eq_model, through the "
+    "embedding List Nat -> Array Int of the words) to the definitions that tools/rs2lean_typed.py regenerates from the text of rlib/bitset/src/bitset.rs and bits_iter.rs "
+    "on every run (Generated/BitsetSrc.lean, BitsIterSrc.lean: [u64; N] = Array Int with checked indexing, x/64, x%64, <<, >>, | & ^ ! as machine operations on Int, "
+    "count = checked usize sum over SrcInt.countOnes); hypotheses: every word < 2^64 (the invariant WF), positions < 2^64 (usize); trusted there: the translator, its "
+    "preludes (Generated/VecPrelude.lean, ArrPrelude.lean) and in particular SrcInt.countOnes / trailingZeros as the meaning of u64::count_ones / trailing_zeros (bit recursion, "
+    "the same recursion as the model's popcnt / tz); translated on every run but NOT proved equal to the model (differential tie only): the seven word-wise operator "
+    "functions and BitsIter::next; not translated: iter_bits, Default, Display/Debug, derived Clone/Eq/PartialEq")
+MANIFEST["technique"] += (" + source-to-Lean translation of rlib/bitset/src/bitset.rs and bits_iter.rs regenerated on every run; new/from_u64/set/remove/flip/test/clear/count "
+                          "proved equal to the model (operators and BitsIter::next translated, not yet proved)")
+
+
+def extract(repo):
+    """Translate <repo>/rlib/bitset/src/bitset.rs and bits_iter.rs into Generated/BitsetSrc.lean and Generated/BitsIterSrc.lean (written only
+    when their text changes).  A construct outside the translator's subset makes the second tie unavailable; the generated file then
+    has no definitions, so the src_* theorems stop compiling as well (never a stale file left in place)."""
+    import os
+    import sys
+    verif = os.path.dirname(os.path.dirname(os.path.abspath(__file__)))
+    tools = os.path.join(verif, "tools")
+    if tools not in sys.path:
+        sys.path.insert(0, tools)
+    import rs2lean_typed
+    gen = os.path.join(verif, "lean", "RlibModel", "Generated")
+    rel1, rel2 = "rlib/bitset/src/bitset.rs", "rlib/bitset/src/bits_iter.rs"
+    info1, p1 = rs2lean_typed.run(os.path.join(repo, rel1), os.path.join(gen, "BitsetSrc.lean"), "Rlib.BitsetSrc", rel1, ID, "Bitset", TRANSLATED)
+    info2, p2 = rs2lean_typed.run(os.path.join(repo, rel2), os.path.join(gen, "BitsIterSrc.lean"), "Rlib.BitsIterSrc", rel2, ID, "BitsIter", TRANSLATED_ITER)
+    ok = bool(info1.get("functions")) and bool(info2.get("functions"))
+    params = {"translated_from": [rel1, rel2],
+              "translated_functions": (info1.get("functions", []) + ["BitsIter::" + f for f in info2.get("functions", [])]) if ok else [],
+              "translated_loops": info1.get("loops", []) + info2.get("loops", []),
+              "not_translated": NOT_TRANSLATED, "translated_not_proved": NOT_PROVED,
+              "generated_files": ["lean/RlibModel/Generated/BitsetSrc.lean", "lean/RlibModel/Generated/BitsIterSrc.lean"],
+              "generated_files_rewritten": [info1.get("rewritten", False), info2.get("rewritten", False)]}
+    return params, p1 + p2
+
+
+def extra(ctx):
+    """Plain-words verdict on the second tie when the translation succeeded but the src_* module did not build; decided from the status
+    the generic check recorded for this run (not from file times, see checks/C19.py)."""
+    import rs2lean
+    ok = bool(ctx["params"].get("translated_functions"))
+    status = ctx["coverage"].get("second_tie", {}).get("status")
+    if ok and status == "broken":
+        return [{"class": "broken", "kind": "proof", "nosearch": False,
+                 "what": rs2lean.PROOF.format(src="rlib/bitset/src/{bitset,bits_iter}.rs", lemmas="lean/RlibModel/Lemmas/BitsetSrc.lean")}]
+    return []
